@@ -827,6 +827,14 @@ class Gen(object):
             if f == 'tuple' or f == 'list':
                 return ev(n.args[0]) if n.args else SList(z3.K(I, z3.RealVal(0)), z3.IntVal(0), 'real')
             if f == 'isinstance':
+                # points are flat lists of reals in the contracts' data model: isinstance(<real>, float) is True,
+                # isinstance(<list>, float) is False (the nested "rows of points" layout of volumes)
+                if isinstance(n.args[1], ast.Name) and n.args[1].id == 'float':
+                    v = ev(n.args[0])
+                    if is_real(v) or is_int(v):
+                        return z3.BoolVal(is_real(v))
+                    if isinstance(v, SList):
+                        return z3.BoolVal(False)
                 raise Unsupported('isinstance')
             if f == 'print' or f == 'str':
                 self.dropped.append('%s() at line %d' % (f, n.lineno))
@@ -1030,6 +1038,15 @@ class Gen(object):
                         raise Unsupported('slice assignment of non-list')
                     path.env[base.id] = val
                     return
+                if s.lower is None and s.upper is None and s.step is None and isinstance(base, ast.Subscript) \
+                        and isinstance(base.value, ast.Name) and isinstance(val, SList) and not val.nested():
+                    # X[i][:] = row   (whole-row replacement of a nested list, value semantics)
+                    outer = path.env[base.value.id]
+                    i = self.expr(base.slice, path)
+                    self.index(outer, i, path, line)
+                    path.env[base.value.id] = SList(z3.Store(outer.arr, i, val.arr), outer.ln, outer.et,
+                                                    z3.Store(outer.ilen, i, val.ln))
+                    return
                 raise Unsupported('slice assignment')
             if isinstance(base, ast.Name):
                 l = path.env[base.id]
@@ -1041,8 +1058,12 @@ class Gen(object):
             if isinstance(base, ast.Subscript) and isinstance(base.value, ast.Name):
                 outer = path.env[base.value.id]
                 i = self.expr(base.slice, path)
-                if isinstance(tgt.slice, ast.Slice):
-                    raise Unsupported('nested slice assignment')
+                if isinstance(tgt.slice, ast.Slice) and tgt.slice.lower is None and tgt.slice.upper is None \
+                        and tgt.slice.step is None and isinstance(val, SList) and not val.nested():
+                    self.index(outer, i, path, line)
+                    path.env[base.value.id] = SList(z3.Store(outer.arr, i, val.arr), outer.ln, outer.et,
+                                                    z3.Store(outer.ilen, i, val.ln))
+                    return
                 row = self.index(outer, i, path, line)
                 j = self.expr(tgt.slice, path)
                 newrow = self.store(row, j, val, path, line)
